@@ -76,6 +76,7 @@ let parse_outs (toks : string list) : outs =
   List.iter (fun t ->
       if t = "" then ()
       else if String.length t > 4 && String.sub t 0 4 = "CFG=" then o.cfgst <- String.sub t 4 (String.length t - 4)
+      else if t = "BADCASE" then o.flags <- t :: o.flags
       else if t.[0] = 'B' && not (String.contains t '=') then begin
         match String.split_on_char ':' (String.sub t 1 (String.length t - 1)) with
         | [m; c; h] -> Hashtbl.replace o.bits (int_of_string m) (ints_of c, ints_of h)
@@ -216,6 +217,7 @@ let judge_conc (ins : string list) (outs : string list) : verdict =
       let o = parse_outs outs in
       if List.mem "BADCASE" o.flags then VOk false
       else if List.mem "CHILDLOST" o.flags then VDisagree "concurrent-child-produced-no-output"
+      else if flag_with o "LOCKUP=" <> None then VPropfail ("query_terminates", "the case did not finish within the watchdog period")
       else if List.mem "PANIC" o.flags then VPropfail ("no_panic", "panic in the code under test")
       else if o.cfgst <> "ok" then VDisagree ("configuration-rejected:" ^ o.cfgst)
       else begin
@@ -296,7 +298,7 @@ let judge_conc (ins : string list) (outs : string list) : verdict =
                   if has_reset then check_sandwich "FQ" lo e_all
                   else begin
                     let obs = fails "FQ" in
-                    if sort_f obs = sort_f e_all then None
+                    if c13_same_set_ok e_all obs then None
                     else begin
                       let spurious = List.filter (fun f -> not (List.mem f e_all)) obs in
                       let clause = if List.exists api_of spurious then "api_not_counted" else "concurrent_final" in
@@ -307,7 +309,7 @@ let judge_conc (ins : string list) (outs : string list) : verdict =
                (fun () -> if get "FR" = "204" then None else Some (VPropfail ("reset_status", "FR")));
                (fun () ->
                   let obs = fails "FQ2" in
-                  if obs = e_init then None
+                  if c13_answer_ok e_init obs then None
                   else Some (VPropfail ("reset_all", Printf.sprintf "after-final-reset want=%s got=%s"
                                           (pr_failures e_init) (pr_failures obs))));
                (fun () ->
@@ -329,6 +331,7 @@ let judge_gate (ins : string list) (outs : string list) : verdict =
       let o = parse_outs outs in
       if List.mem "BADCASE" o.flags then VOk false
       else if List.mem "CHILDLOST" o.flags then VDisagree "concurrent-child-produced-no-output"
+      else if flag_with o "LOCKUP=" <> None then VPropfail ("query_terminates", "the case did not finish within the watchdog period")
       else if List.mem "PANIC" o.flags then VPropfail ("no_panic", "panic in the code under test")
       else if o.cfgst <> "ok" then VDisagree ("configuration-rejected:" ^ o.cfgst)
       else begin
@@ -356,7 +359,8 @@ let judge_gate (ins : string list) (outs : string list) : verdict =
                  ([fq], "concurrent_atomic_reset")
                end in
              let h1 = pre @ [m; op; Query] and h2 = pre @ [op; m; Query] in
-             if c13_either_ok c h1 h2 obs then begin
+             (* some interleaving of the two goroutines ([m] and [op]) explains the answers *)
+             if c13_serial_ok c pre [m] [op] [Query] obs then begin
                match flag_with o "RACE=" with
                | Some r -> VPropfail ("data_race", r)
                | None -> VOk (List.mem "PARKED=1" o.flags)
@@ -370,12 +374,38 @@ let judge_gate (ins : string list) (outs : string list) : verdict =
       end
   | _ -> VOk false
 
+(* STRESSB|STRESSM tree traffic TxN : heavy traffic against queries and resets;
+   everything must return (LOCKUP is the watchdog's observation), and
+   afterwards reset / one message / query gives the sequential answer *)
+let judge_stress (ins : string list) (outs : string list) : verdict =
+  match ins with
+  | [_; tree; mtok; _load] ->
+      let o = parse_outs outs in
+      if List.mem "BADCASE" o.flags then VOk false
+      else if List.mem "PANIC" o.flags then VPropfail ("no_panic", "panic in the code under test")
+      else if o.cfgst <> "ok" then VDisagree ("configuration-rejected:" ^ o.cfgst)
+      else (match flag_with o "LOCKUP=" with
+          | Some l -> VPropfail ("query_terminates", l ^ " (traffic, queries and resets did not all return within the watchdog period)")
+          | None ->
+            let c = parse_tree tree in
+            let h = [Reset; label_of o mtok 2; Query] in
+            (try
+               let a = (try Hashtbl.find o.answers "FQ" with Not_found -> raise (Bad "no FQ")) in
+               if String.length a > 0 && a.[0] = '!' then raise (Unrepresentable a);
+               let fq = parse_failures a in
+               if c13_ok c h [fq] then VOk true
+               else VPropfail ("reset_all", Printf.sprintf "after the load: reset, one message, query: want=%s got=%s"
+                                 (String.concat "_" (List.map pr_failures (spec_outputs c h))) (pr_failures fq))
+             with Unrepresentable t -> VPropfail ("wellformed_answer", "got=" ^ t)))
+  | _ -> VOk false
+
 let judge _name ins outs =
   try
     match ins with
     | ("SEQ" | "DIR") :: _ -> judge_seq ins outs
     | ("CONC" | "CONCB") :: _ -> judge_conc ins outs
     | ("GATEM" | "GATEB") :: _ -> judge_gate ins outs
+    | ("STRESSM" | "STRESSB") :: _ -> judge_stress ins outs
     | _ -> VDisagree "unknown-case-kind"
   with Bad m -> VDisagree ("unparsable-case:" ^ m)
 
